@@ -21,6 +21,7 @@ ENGINE_TEXT = {
 EXTEND = {
     "C17": {
         "engines": ["cli"],
+        "classes": ["UNIT_TEXT"],
         "trusted": [CLI_TRUST],
         "rule": ("cli engine: `totalmapper add_systemd_service (--default-layout N | --layout-file F) [--exclude P]...` with argv given as raw bytes, the layout option placed "
                  "anywhere among the excludes, each pattern spelled `--exclude P` or `--exclude=P` (always the latter when P starts with '-' and is not '-': clap 3.0.0-rc.7 refuses "
